@@ -78,6 +78,13 @@ def run(tier, seed):
             if fmt == "android-safetynet":
                 continue        # its timestamp window is C17's subject
             B.run_case(regrun.policy_of(pd2), reg, "dict", exp, f"replayed-at-{now - regsim.T0:+d}s/{fmt}", scn=s)
+    # 2c'. the built-in anchors are the pinned ones: a certificate literal in the source that the pinned baseline (harness/srcdict_baseline.json) does not
+    #      have is a candidate trust anchor nobody can exercise without its private key - reported as a broken correspondence, by name
+    from harness import srcdict
+    for c in srcdict.new_certificates():
+        chk.diverge("built-in trust anchors = the pinned certificates of webauthn.helpers.known_root_certs (7 certificates, by SHA-256 of their DER)",
+                    f"the source contains a certificate the pinned set does not: sha256/subject = {c}", {"certificate": c, "how": "harness/srcdict.py: PEM literals of /repo/webauthn vs harness/srcdict_baseline.json"})
+    chk.evals += 1
     # 2c. genuine recorded attestations against the REAL built-in anchors (nothing substituted but the clock)
     import os
     V = json.load(open(os.path.join(os.path.dirname(os.path.dirname(os.path.abspath(__file__))), "realvec.json")))
